@@ -102,14 +102,14 @@ def run(ctx):
     model_exe = vlib.ocaml_model("C01")
     rng = ctx.rng
     stats = {}
-    nmodels = ctx.pick(40, 1500)
+    nmodels = 1 if ctx.replay_model else ctx.pick(40, 1500)
     allprob = []
     nontrivial = 0
     for mi in range(nmodels):
         big = (mi % 8 == 3)
         hub = (mi % 16 == 6)
-        m = lc.gen_model(rng, max_order=ctx.pick(5, 6), max_vocab=ctx.pick(8, 30), big=big, hub=hub)
-        big = big or hub
+        m = ctx.replay_model or lc.gen_model(rng, max_order=ctx.pick(5, 6), max_vocab=ctx.pick(8, 30), big=big, hub=hub)
+        big = (big or hub) and not ctx.replay_model
         sess = lc.Session(ctx, m, "m%d" % mi)
         if big:
             qs = lc.ngram_queries(m) + lc.gen_queries(rng, m, 40)
@@ -152,3 +152,8 @@ def run(ctx):
         for sig, what, rq, found in allprob:
             ctx.report(sig, what, rq, False)
         ctx.report_proof(pres)
+
+
+def replay(ctx, obj):
+    import sys
+    return lc.lm_replay(sys.modules[__name__], ctx, obj)
